@@ -122,40 +122,35 @@ theorem takeFromStake_money (u : Int) (v : Val) (tq : TQ) :
   · simp [valMoney]; omega
   · simp
 
+theorem takePenalty_core (u : Int) (q : List WRec) (v : Val) (amount sp : Int) (dl : List (Addr × Int)) :
+    sumUnfinished (takeFromQueue v.addr q sp dl 0 amount).1 + valMoney (takeFromStake u v (takeFromQueue v.addr q sp dl 0 amount)).1
+        + (takeFromStake u v (takeFromQueue v.addr q sp dl 0 amount)).2 = sumUnfinished q + valMoney v
+      ∧ (takeFromStake u v (takeFromQueue v.addr q sp dl 0 amount)).1.addr = v.addr := by
+  have h1 := takeFromQueue_spec v.addr q sp dl 0 amount
+  have h2 := takeFromStake_money u v (takeFromQueue v.addr q sp dl 0 amount)
+  exact ⟨by omega, h2.2⟩
+
 theorem takePenalty_spec (u : Int) (q : List WRec) (v : Val) (amount : Int) :
     sumUnfinished (takePenalty u q v amount).1 + valMoney (takePenalty u q v amount).2.1 + (takePenalty u q v amount).2.2
       = sumUnfinished q + valMoney v ∧ (takePenalty u q v amount).2.1.addr = v.addr := by
   unfold takePenalty
-  simp only
-  have h1 := takeFromQueue_spec v.addr q
-    ((amount - if v.risk > 0 ∧ v.risk ≤ 10000 then amount * ↑v.risk / 10000 else 0) / v.stake * v.selfStake
-      + (amount - if v.risk > 0 ∧ v.risk ≤ 10000 then amount * ↑v.risk / 10000 else 0) % v.stake
-      + if v.risk > 0 ∧ v.risk ≤ 10000 then amount * ↑v.risk / 10000 else 0)
-    (List.map (fun d => (d.who, (amount - if v.risk > 0 ∧ v.risk ≤ 10000 then amount * ↑v.risk / 10000 else 0) / v.stake * d.stake)) v.delegs) 0 amount
-  have h2 := takeFromStake_money u v (takeFromQueue v.addr q
-    ((amount - if v.risk > 0 ∧ v.risk ≤ 10000 then amount * ↑v.risk / 10000 else 0) / v.stake * v.selfStake
-      + (amount - if v.risk > 0 ∧ v.risk ≤ 10000 then amount * ↑v.risk / 10000 else 0) % v.stake
-      + if v.risk > 0 ∧ v.risk ≤ 10000 then amount * ↑v.risk / 10000 else 0)
-    (List.map (fun d => (d.who, (amount - if v.risk > 0 ∧ v.risk ≤ 10000 then amount * ↑v.risk / 10000 else 0) / v.stake * d.stake)) v.delegs) 0 amount)
-  exact ⟨by omega, h2.2⟩
+  exact takePenalty_core u q v amount _ _
 
-theorem expel_money (p : Params) (n : Nat) (v : Val) : valMoney (expel p n v) = valMoney v ∧ (expel p n v).addr = v.addr := by
+theorem expel_money (p : Params) (ds : Bool) (n : Nat) (v : Val) : valMoney (expel p ds n v) = valMoney v ∧ (expel p ds n v).addr = v.addr := by
   simp [expel, valMoney]
 
 /-- penalties arrive in the penalty account: doPenalize moves exactly what takePenalty took (from withdraw records, own
 stake, delegations) to PenaltyTo -/
-theorem penalize_acct (p : Params) (s : St) (v : Val) (amount : Int) (h : getVal s.vals v.addr = some v)
-    (hok : (penalize p s v amount).2 = .ok) : tl (penalize p s v amount).1 = tl s ∧ Frame s (penalize p s v amount).1 := by
+theorem penalize_acct (p : Params) (s : St) (v : Val) (amount : Int) (h : getVal s.vals v.addr = some v) (ds : Bool := false)
+    (hok : (penalize p s v amount ds).2 = .ok) : tl (penalize p s v amount ds).1 = tl s ∧ Frame s (penalize p s v amount ds).1 := by
   unfold penalize at *
-  split
-  · simp_all
   · split
     · have hp := takePenalty_spec p.unit s.queue v amount
-      have he := expel_money p s.number (takePenalty p.unit s.queue v amount).2.1
+      have he := expel_money p ds s.number (takePenalty p.unit s.queue v amount).2.1
       refine ⟨?_, by simp [Frame, credit]⟩
       simp only [tl, total, credit, sumI_addI, sumVals_putVal, storedMoney, he.2, hp.2, h, he.1]
       omega
-    · have he := expel_money p s.number v
+    · have he := expel_money p ds s.number v
       refine ⟨?_, by simp [Frame, credit]⟩
       simp only [tl, total, credit, sumI_addI, sumVals_putVal, storedMoney, he.2, h, he.1]
       omega
@@ -179,7 +174,7 @@ theorem slashOne_acct (p : Params) (s : St) (v : Val) (h : getVal s.vals v.addr 
       · have e : slashOne p s v = penalize p s v (if p.penaltyPct > 0 then v.token * p.penaltyPct / 100 else 0) := by
           simp only [slashOne, if_neg c1, if_neg c2, if_neg c3]
         rw [e] at hok ⊢
-        exact penalize_acct p s v _ h hok
+        exact penalize_acct p s v _ h false hok
 
 theorem slashLoop_acct (p : Params) (as : List Addr) (s : St) (hok : (slashLoop p as s).2 = .ok) :
     tl (slashLoop p as s).1 = tl s ∧ Frame s (slashLoop p as s).1 := by
@@ -742,18 +737,44 @@ theorem removeInvalid_acct (s : St) : total (removeInvalid s) + (removeInvalid s
   refine ⟨?_, rfl, rfl, by simp [FrameI, removeInvalid]⟩
   rw [this]; simp [removeInvalid]
 
+/-- the part of the invariant the accounting needs: fees in flight and the global residue are non-negative -/
+def Inv0 (s : St) : Prop := 0 ≤ s.fees ∧ 0 ≤ s.residue
+
+theorem Inv.to0 {s : St} (h : Inv s) : Inv0 s := ⟨h.1, h.2.1⟩
+
+theorem rewardsToPool_inv0 (p : Params) (s : St) (cb : Addr) (h : Inv0 s) (hok : (rewardsToPool p s cb).2 = .ok) :
+    Inv0 (rewardsToPool p s cb).1 := by
+  obtain ⟨hf, hr⟩ := h
+  unfold rewardsToPool at *
+  simp only at *
+  generalize hs1d : (if subsidyOf p s > 0 then credit s p.poolAddr (-subsidyOf p s) else s) = s1 at *
+  have hfe : s1.fees = s.fees ∧ s1.residue = s.residue := by
+    subst hs1d; split <;> simp [credit]
+  have hI1 : Inv0 s1 := ⟨by rw [hfe.1]; exact hf, by rw [hfe.2]; exact hr⟩
+  split
+  · exact hI1
+  · split
+    · exact hI1
+    · split
+      · exact hI1
+      · rename_i hp pr hg
+        refine ⟨by simp [distributeBlock], ?_⟩
+        simp only [distributeBlock]
+        apply Int.emod_nonneg
+        omega
+
 /-- the whole end-block hook, period end or not: exact accounting. Everything that leaves `total` is recorded in one of
 the three loss counters: `lost` (F-C07a), `lostDel` (F-C07d), `lostOther` (paths no realistic chain reaches). -/
-theorem endBlock_acct (p : Params) (s : St) (cb : Addr) (order : List (Addr × Addr)) (hI : Inv s) (hp : PendOK s.recs)
+theorem endBlock_acct (p : Params) (s : St) (cb : Addr) (order : List (Addr × Addr)) (hI : Inv0 s) (hp : PendOK s.recs)
     (hok : (endBlock p s cb order).2 = .ok) :
     total (endBlock p s cb order).1 + (endBlock p s cb order).1.lost + (endBlock p s cb order).1.lostDel
         + (endBlock p s cb order).1.lostOther = total s
       ∧ Inv (endBlock p s cb order).1 := by
-  have hI' : Inv { s with lost := 0, lostDel := 0, lostOther := 0 } := hI
+  have hI' : Inv0 { s with lost := 0, lostDel := 0, lostOther := 0 } := hI
   generalize hs0 : ({ s with lost := 0, lostDel := 0, lostOther := 0 } : St) = s0 at *
   have ht0 : total s0 = total s ∧ s0.lost = 0 ∧ s0.lostOther = 0 ∧ s0.recs = s.recs := by subst hs0; exact ⟨rfl, rfl, rfl, rfl⟩
-  have hr := rewardsToPool_total p s0 cb hI'.1 hI'.2.1
-  have hi := rewardsToPool_inv p s0 cb hI'
+  have hr := rewardsToPool_total p s0 cb hI'.1 hI'.2
+  have hi := rewardsToPool_inv0 p s0 cb hI'
   have hg := rewardsToPool_ghost p s0 cb
   cases hrp : rewardsToPool p s0 cb with
   | mk s1 o =>
@@ -773,7 +794,7 @@ theorem endBlock_acct (p : Params) (s : St) (cb : Addr) (order : List (Addr × A
         have h := hri s1
         refine ⟨?_, ?_⟩
         · simp only; omega
-        · exact ⟨by rw [h.2.2.2.2.1]; exact hi.1, by rw [h.2.2.2.1]; exact hi.2.1, removeInvalid_valid s1⟩
+        · exact ⟨by rw [h.2.2.2.2.1]; exact hi.1, by rw [h.2.2.2.1]; exact hi.2, removeInvalid_valid s1⟩
       · have hrecs : PendOK (orderRecs s1.recs order) := by
           have : s1.recs = s.recs := by rw [hg.2.2, ht0.2.2.2]
           rw [this]
@@ -798,7 +819,7 @@ theorem endBlock_acct (p : Params) (s : St) (cb : Addr) (order : List (Addr × A
             · simp only [tl] at htp hpe ⊢
               omega
             · have f := FrameI.trans hpe.2 h.2.2.2
-              exact ⟨by rw [f.2.1, htp.2.2.1]; exact hi.1, by rw [f.1, htp.2.1]; exact hi.2.1, removeInvalid_valid s2⟩
+              exact ⟨by rw [f.2.1, htp.2.2.1]; exact hi.1, by rw [f.1, htp.2.1]; exact hi.2, removeInvalid_valid s2⟩
 
 /-! ### PendOK is an invariant -/
 
@@ -921,5 +942,36 @@ theorem endBlock_pendOK (p : Params) (s : St) (cb : Addr) (order : List (Addr ×
             have h1 : s2.recs = (takePending s1 order).recs := (hpe rfl).2.2.2.2
             have : (removeInvalid s2).recs = [] := by simp [removeInvalid, h1, takePending]
             simp only [this]; exact pendOK_nil
+
+/-! ### double-sign evidence -/
+
+theorem penalize_lost (p : Params) (s : St) (v : Val) (amount : Int) (ds : Bool) : (penalize p s v amount ds).1.lost = s.lost := by
+  unfold penalize
+  repeat' split
+  all_goals simp [credit]
+
+/-- accepted double-sign evidence: the penalty (2 % of the token, taken from withdraw records, own stake, delegations)
+arrives in the penalty account -/
+theorem evidenceStep_acct (p : Params) (s : St) (a : Addr) (hok : (evidenceStep p s a).2 = .ok) :
+    tl (evidenceStep p s a).1 = tl s ∧ (evidenceStep p s a).1.lost = s.lost ∧ FrameI s (evidenceStep p s a).1 := by
+  by_cases c : s.dsSeen.contains a = true
+  · have e : evidenceStep p s a = (s, .ok) := by simp only [evidenceStep, if_pos c]
+    rw [e]; exact ⟨rfl, rfl, FrameI.refl s⟩
+  · cases hg : getVal s.vals a with
+    | none =>
+      have e : evidenceStep p s a = (s, .ok) := by simp only [evidenceStep, if_neg c, hg]
+      rw [e]; exact ⟨rfl, rfl, FrameI.refl s⟩
+    | some v =>
+      have e : evidenceStep p s a = ((penalize p { s with dsSeen := a :: s.dsSeen } v (v.token * p.penaltyDoubleSign / 100) true).1,
+          (penalize p { s with dsSeen := a :: s.dsSeen } v (v.token * p.penaltyDoubleSign / 100) true).2) := by
+        simp only [evidenceStep, if_neg c, hg]
+      rw [e] at hok ⊢
+      have ha := getVal_addr hg
+      have h := penalize_acct p { s with dsSeen := a :: s.dsSeen } v (v.token * p.penaltyDoubleSign / 100) (by simpa [ha] using hg) true hok
+      have hl := penalize_lost p { s with dsSeen := a :: s.dsSeen } v (v.token * p.penaltyDoubleSign / 100) true
+      refine ⟨?_, hl, ?_⟩
+      · simp only; rw [h.1]; simp [tl, total]
+      · have := h.2.toI
+        exact ⟨this.1, this.2.1, this.2.2.1, this.2.2.2⟩
 
 end YouVerif.C07
